@@ -2,7 +2,11 @@
 second alias, impure intermediates, helpers that mutate their argument, match, dispatch dict, guard clauses ...): the
 normal form of each function is EXECUTED next to the original on the same inputs; results, exceptions and the final state
 of the argument must be identical.   usage: /venv/bin/python translator/c18_norm_selftest.py"""
-CASES = r'''_K = ("a", "b")
+CASES = r'''import functools
+from functools import partial
+import contextlib
+
+_K = ("a", "b")
 _DEF = 7
 
 
@@ -136,6 +140,108 @@ def f16(d):
     z = [y for _ in range(2)]
     d["y"] = 0
     return z, y
+
+
+class _A(dict):
+    pass
+
+
+def f17(d):
+    t = type(d)
+    d = _A(d)
+    return t.__name__, type(d).__name__, t is type(d)
+
+
+def f18(d):
+    t = type(d)
+    u = type(d.get("s"))
+    if t is u:
+        return "same " + t.__name__
+    names = [t.__name__ for _ in range(2)]
+    raise TypeError(f"{t.__name__} {u.__name__} {names}")
+
+
+def f19(d):
+    ok = isinstance(d.get("x"), int)
+    d["x"] = "now a string"
+    return ok, isinstance(d["x"], int)
+
+
+def f20(d):
+    k = isinstance(d, dict)
+    d["k"] = k
+    return k, k
+
+
+def f21(d):
+    x = d.get("s", d.get("x"))
+    match x:
+        case None:
+            return "none"
+        case dict():
+            return "dict"
+        case int() | str():
+            return "scalar"
+        case _:
+            return "other"
+
+
+def f22(d):
+    add = partial(_h, y=3)
+    add2 = functools.partial(_h, d.get("x"))
+    return add(d.get("x")), add(1, y=4), add2(), add2(y=1) if d.get("x") is not None else None
+
+
+def f23(d):
+    y = d.get("y", 1)
+    g = partial(_h, y)
+    y = 100
+    return g(1)
+
+
+def f24(d):
+    a = dict((k.upper(), v) for k, v in d.items() if k != "s")
+    b = list(k for k in d)
+    c = set([k for k in d])
+    return a, b, sorted(c)
+
+
+def f26(d):
+    a, b = d.get("x"), d.get("y")
+    b, a = a, b
+    c, e = type(a), [a, b]
+    return a, b, c.__name__, e
+
+
+class _B(dict):
+    pass
+
+
+def f27(d):
+    o = _A(d)
+    t = type(o)
+    o["q"] = 1
+    o.marker = 2
+    u = t.__name__
+    o.__class__ = _B
+    return u, t.__name__, type(o).__name__
+
+
+def f28(d):
+    s = d.get("s")
+    empty = s is None
+    if empty:
+        s = {}
+    s["n"] = 1
+    same = s is d.get("s")
+    d["s"] = None
+    return empty, empty and same, same, s
+
+
+def f25(d):
+    with contextlib.suppress(KeyError), contextlib.suppress(TypeError):
+        d["n"] = d["x"] + 1
+    return d.get("n")
 '''
 import ast, copy, sys
 from pathlib import Path
@@ -152,7 +258,7 @@ exec(compile(src, "m", "exec"), orig)
 inputs = [{}, {"x": 1}, {"x": None, "k": 4, "a": 1}, {"k": 2, "a": 5, "b": 6, "t": "x", "v": 1, "s": {}, "lo": 0, "hi": 3, "x": 2, "y": 9},
           {"k": 2, "v": None, "s": {"q": 1}, "lo": 5, "hi": 3, "x": 4, "y": 1, "t": "z"}, {"v": 10, "x": 7, "k": 0, "lo": 1, "hi": 9, "s": {}, "y": 2}]
 bad = 0
-for name in [n for n in orig if n.startswith("f")]:
+for name in [n for n in orig if n.startswith("f") and n[1:].isdigit()]:
     fn = N.func("pyxel/m.py", name)
     ns = dict(orig)
     exec(compile(ast.fix_missing_locations(ast.Module(body=[fn], type_ignores=[])), "n", "exec"), ns)
